@@ -7,6 +7,7 @@ import (
 	"encoding/json"
 	"fmt"
 	"math"
+	"os"
 	"runtime"
 	"sort"
 	"strings"
@@ -258,13 +259,18 @@ func Handle(t e1.Task) (*e1.Result, map[uint64]struct{}) {
 	// solitary results
 	type key struct{ op, in int }
 	solo := map[key][]float64{}
+	tainted := false // a reference run left goroutines behind: a helper pool lives in this process
 	get := func(op, in int) []float64 {
 		k := key{op, in}
 		if v, ok := solo[k]; ok {
 			return v
 		}
 		var v []float64
-		if pv := common.Catch(func() { v = ops[op].F(inputs[in], bitsIn[in]) }); pv != nil {
+		leaked, pv := explore.Controlled(func() { v = ops[op].F(inputs[in], bitsIn[in]) }, vsched.Options{NumCPU: 4, MaxSteps: 2000000})
+		if leaked {
+			tainted = true
+		}
+		if pv != "" {
 			v = []float64{math.NaN()}
 		}
 		solo[k] = v
@@ -300,17 +306,22 @@ func Handle(t e1.Task) (*e1.Result, map[uint64]struct{}) {
 		if p.Big {
 			// repeated alone on the same data: bit-identical
 			var again []float64
-			if pv := common.Catch(func() { again = ops[opIdx[0]].F(inputs[inIdx[0]], bitsIn[inIdx[0]]) }); pv != nil || !same(again, want[0]) {
+			_, pv := explore.Controlled(func() { again = ops[opIdx[0]].F(inputs[inIdx[0]], bitsIn[inIdx[0]]) }, vsched.Options{NumCPU: 4, MaxSteps: 2000000})
+			if pv != "" || !same(again, want[0]) {
 				total.Found = &explore.Found{Violation: fmt.Sprintf("%s on a %d-byte sample: the second call returned %v, the first %v (panic=%v)", ops[opIdx[0]].Name, len(inputs[inIdx[0]]), short(again), short(want[0]), pv)}
 				break
 			}
+		}
+		if tainted {
+			total.Capped = explore.PersistentNote
+			break
 		}
 		inSums := make([][20]byte, len(inputs))
 		bitSums := make([][20]byte, len(inputs))
 		for i := range inputs {
 			inSums[i], bitSums[i] = sum(inputs[i]), bitsSum(bitsIn[i])
 		}
-		cfg := explore.Config{Name: t.Name, Bound: t.Bound, CostAll: false, MaxExecs: t.MaxExec, Opt: vsched.Options{NumCPU: 4, MaxSteps: 200000}}
+		cfg := explore.Config{Name: t.Name, Bound: t.Bound, CostAll: t.CostAll, MaxExecs: t.MaxExec, Opt: vsched.Options{NumCPU: 4, Policy: t.Policy, MaxSteps: 200000}}
 		if t.Budget > 0 {
 			cfg.Deadline = start.Add(time.Duration(t.Budget * float64(time.Second)))
 		}
@@ -337,12 +348,14 @@ func Handle(t e1.Task) (*e1.Result, map[uint64]struct{}) {
 				switch {
 				case x.Outcome == vsched.OutPanic:
 					v.Violation = fmt.Sprintf("concurrent %v: panic: %s", names, x.PanicVal)
-				case x.Outcome != vsched.OutDone:
+				case x.Outcome != vsched.OutDone && x.Outcome != vsched.OutLeak:
 					v.Violation = fmt.Sprintf("concurrent %v: %s %v", names, x.Outcome, x.Blocked)
 				default:
+					// helper goroutines that outlive the calls are not forbidden by this property
+					v.Persistent = x.Outcome == vsched.OutLeak && !x.LeakFromOnce
 					for k := range opIdx {
 						if !same(got[k], want[k]) {
-							v.Violation = fmt.Sprintf("concurrent %v: %s returned %v, alone it returns %v", names, names[k], short(got[k]), short(want[k]))
+							v.Violation = fmt.Sprintf("concurrent %v: %s returned %v, alone it returns %v (%s)", names, names[k], short(got[k]), short(want[k]), firstDiff(got[k], want[k]))
 							break
 						}
 					}
@@ -392,6 +405,25 @@ func Handle(t e1.Task) (*e1.Result, map[uint64]struct{}) {
 	total.NStates = len(states)
 	total.WallS = time.Since(start).Seconds()
 	return total, states
+}
+
+func tailLog(l []string, n int) []string {
+	if len(l) > n {
+		return l[len(l)-n:]
+	}
+	return l
+}
+
+func firstDiff(a, b []float64) string {
+	if len(a) != len(b) {
+		return fmt.Sprintf("%d values instead of %d", len(a), len(b))
+	}
+	for i := range a {
+		if math.Float64bits(a[i]) != math.Float64bits(b[i]) {
+			return fmt.Sprintf("first difference at value %d: %v instead of %v", i, a[i], b[i])
+		}
+	}
+	return "no difference"
 }
 
 func short(v []float64) []float64 {
@@ -677,6 +709,22 @@ func Run(ctx *common.Ctx) int {
 			tasks = append(tasks, e1.Task{Check: "C18", Name: fmt.Sprintf("c18/big/%s/shared=%v", ops[a].Name, shared), Params: pp, Bound: 1, NShards: 1})
 		}
 	}
+	if info.Counts["go"] > 0 || info.Counts["make chan"] > 0 || info.Counts["send"] > 0 {
+		// the libraries start goroutines / use channels (helper pools, parallel fast paths): blocking points abound and
+		// a pure preemption bound no longer bounds anything; every non-default decision counts (deviation bound), and the
+		// least-recently-run default policy is added so that overlapping calls are reached without deviations
+		var more []e1.Task
+		for i := range tasks {
+			if tasks[i].Name != "c18/seq" {
+				tasks[i].CostAll = true
+				t2 := tasks[i]
+				t2.Policy = 2
+				t2.Name += "/p2"
+				more = append(more, t2)
+			}
+		}
+		tasks = append(tasks, more...)
+	}
 	ctx.Printf("C18: %d tasks; package-level variables %v; touches inserted %d\n", len(tasks), pre, info.Counts["touch"])
 	m := e1.RunTasks(ctx, info.Bin, tasks, 0, false)
 	var samples []interface{}
@@ -691,7 +739,7 @@ func Run(ctx *common.Ctx) int {
 			} else if f := strings.Fields(v); len(f) > 1 {
 				k2 = f[0] + " " + f[1]
 			}
-			ctx.Report(strings.Split(key, "/chunk")[0]+"/"+k2, v, map[string]interface{}{"task": res.Task.Name, "choices": res.Found.Choices, "outcome": res.Found.Outcome})
+			ctx.Report(strings.Split(key, "/chunk")[0]+"/"+k2, v, map[string]interface{}{"task": res.Task.Name, "choices": res.Found.Choices, "outcome": res.Found.Outcome, "blocked": res.Found.Blocked, "log_tail": tailLog(res.Found.Log, 160)})
 		}
 		if res.Task.Name == "c18/seq" {
 			samples = append(samples, map[string]interface{}{"task": "sequential state search", "reachable_states": res.NStates, "transitions": res.Transitions, "alphabet(op x input)": res.Extra["alphabet"], "depth": res.Extra["depth"], "package_state_dump_bytes": res.Extra["package_state_bytes"]})
@@ -716,7 +764,7 @@ func Run(ctx *common.Ctx) int {
 		"distinct_nontrivial":           maxInt(len(pairs), 2),
 		"samples":                       samples,
 		"rule": "sequential: breadth-first search over operation sequences; state = deep dump of every package-level variable of randomness, fft and detect (list generated from the AST at check time) plus hashes of the shared inputs; every operation must repeat its initial-state result bit for bit and leave the inputs unchanged (depth 1 closes the search when every operation is a self-loop, depth 3 otherwise); " +
-			"concurrent: 2 (3) controlled threads, one call each, all ordered pairs of the 17 registry-level operations (thorough: all entry points) on a shared and on distinct buffers, every schedule with <= 2 preemptions at the instrumented points (synchronisation operations and accesses to package-level variables); each result must equal its solitary result; the same for every registry runner paired with itself on 10^6-bit samples (<= 1 preemption); race pass: every ordered pair and a 64-goroutine mix free-running under -race, and every entry point (bit- and byte-level calls included) three at once and with its table neighbour on one shared buffer",
+			"concurrent: 2 (3) controlled threads, one call each, all ordered pairs of the 17 registry-level operations (thorough: all entry points) on a shared and on distinct buffers, every schedule with <= 2 preemptions at the instrumented points (synchronisation operations and accesses to package-level variables); each result must equal its solitary result; the same for every registry runner paired with itself on 10^6-bit samples (<= 1 preemption); race pass: every ordered pair and a 64-goroutine mix free-running under -race, and every entry point (bit- and byte-level calls included) three at once and with its table neighbour on one shared buffer, and sixteen goroutines running the same registry operation on six different inputs (results compared with the solitary ones)",
 		"package_level_variables":     pre,
 		"touch_points_inserted":       info.Counts["touch"],
 		"max_touch_points_per_thread": maxTouches,
@@ -775,7 +823,7 @@ func raceShared() int {
 		for k, o := range list {
 			if !same(got[k], solo[o]) && bad < 3 {
 				bad++
-				fmt.Printf("WARNING: DATA RACE (observed through results): %s called concurrently with %v on the same data returned %v, alone it returns %v\n", ops[o].Name, list, short(got[k]), short(solo[o]))
+				fmt.Fprintf(os.Stderr, "WARNING: DATA RACE (observed through results): %s called concurrently with %v on the same data returned %v, alone it returns %v\n", ops[o].Name, list, short(got[k]), short(solo[o]))
 			}
 		}
 	}
@@ -792,16 +840,60 @@ func raceShared() int {
 	return 0
 }
 
+// raceStorm: sixteen goroutines at once run the SAME registry operation on six DIFFERENT inputs (and a second wave
+// right behind the first): helper goroutines, pools or caches shared between calls must not hand one call's
+// result to another. Results must equal the solitary ones bit for bit.
+func raceStorm() int {
+	ops := Ops()[:NRegistryOps]
+	inputs := append(Inputs(1), enum.FillerBytes(2500, 77), enum.FillerBytes(4200, 78))
+	bitsIn := make([][]bool, len(inputs))
+	for i := range inputs {
+		bitsIn[i] = bitsWindow(inputs[i])
+	}
+	bad := 0
+	for o := range ops {
+		solo := make([][]float64, len(inputs))
+		for i := range inputs {
+			if len(inputs[i]) >= ops[o].Min {
+				solo[i] = ops[o].F(inputs[i], bitsIn[i])
+			}
+		}
+		for wave := 0; wave < 2; wave++ {
+			var wg sync.WaitGroup
+			got := make([][]float64, 16)
+			which := make([]int, 16)
+			for g := 0; g < 16; g++ {
+				i := (g + wave) % len(inputs)
+				for solo[i] == nil {
+					i = (i + 1) % len(inputs)
+				}
+				g, i := g, i
+				which[g] = i
+				wg.Add(1)
+				go func() { defer wg.Done(); got[g] = ops[o].F(inputs[i], bitsIn[i]) }()
+			}
+			wg.Wait()
+			for g := range got {
+				if !same(got[g], solo[which[g]]) && bad < 3 {
+					bad++
+					fmt.Fprintf(os.Stderr, "WARNING: DATA RACE (observed through results): %s called by 16 goroutines at once on different inputs returned %v for input %d, alone it returns %v\n", ops[o].Name, short(got[g]), which[g], short(solo[which[g]]))
+				}
+			}
+		}
+	}
+	return 0
+}
+
 // racePass runs the C18-race sub-command of the -race runner.
 func racePass(ctx *common.Ctx, bin string) (bool, int) {
 	okAll := true
 	total := 0
 	var mu sync.Mutex
 	// one fresh process per operation (cold package state), plus the 64-goroutine mix
-	common.ParFor(NRegistryOps+2, func(k int) {
+	common.ParFor(NRegistryOps+3, func(k int) {
 		op := k
 		if k >= NRegistryOps {
-			op = NRegistryOps - 1 - k // -1: the 64-goroutine mix, -2: every entry point on shared data
+			op = NRegistryOps - 1 - k // -1: the 64-goroutine mix, -2: every entry point on shared data, -3: same-operation storms
 		}
 		ok, n := fast.RacePass(ctx, bin, []string{"C18-race", "--tier", ctx.Tier, "--work", ctx.Work, "--gomaxprocs", fmt.Sprint(op)}, fmt.Sprintf("race/op%d", op))
 		mu.Lock()
@@ -820,6 +912,9 @@ func Race(ctx *common.Ctx, cold int) int {
 	runtime.GOMAXPROCS(16)
 	if cold == -2 {
 		return raceShared()
+	}
+	if cold == -3 {
+		return raceStorm()
 	}
 	ops := Ops()[:NRegistryOps]
 	inputs := append(Inputs(1), enum.FillerBytes(2500, 77), enum.FillerBytes(4200, 78))
